@@ -300,7 +300,7 @@ def mkTree (n : Node) (ks : List Tree) : Tree :=
 
 mutual
 /-- the subtree below `s`, every node on the way dereferenced -/
-def export : Nat → Mem → Nat → R Tree
+def exportTree : Nat → Mem → Nat → R Tree
   | 0, _, _ => .error .diverge
   | f + 1, m, s => do
     let n ← m.deref s
@@ -314,45 +314,47 @@ def exportKids : Nat → Mem → Nat → Option Nat → R (List Tree)
     let n ← m.deref c
     if n.parent ≠ some p then .error (.shape c)
     else
-      let t ← export f m c
+      let t ← exportTree f m c
       let rest ← exportKids f m p n.next
       pure (t :: rest)
 end
+
+/-- a fresh node with its strings and table: node + data + table blocks -/
+def Mem.push (m : Mem) (node : Node) : Mem :=
+  { m with heap := m.heap ++ [node], blocks := m.blocks + node.owned }
+
+/-- `copy->children = first child` -/
+def Mem.setChildren (m : Mem) (id : Nat) (first : Option Nat) : Mem :=
+  m.put id { m.get id with children := first }
 
 mutual
 /-- fresh nodes for the tree value `t` (pre-order), linked as xmpp_stanza_copy / the parser link them:
     every node has ref 1, the root has no parent and no siblings; returns the root's id -/
 def importTree (m : Mem) : Tree → Mem × Nat
-  | t =>
-    let id := m.heap.length
-    let node : Node :=
-      match t with
-      | .tag name attrs _ => { Node.fresh with kind := .tag, data := some name, attrs := attrs }
-      | .text d _ => { Node.fresh with kind := .text, data := some d }
-      | .unknown _ => Node.fresh
-    let m : Mem := { m with heap := m.heap ++ [node], blocks := m.blocks + node.owned }
-    let ks := match t with
-      | .tag _ _ ks => ks
-      | .text _ ks => ks
-      | .unknown ks => ks
-    let (m, first) := importKids m id ks none
-    (m.put id { m.get id with children := first }, id)
+  | .tag name attrs ks =>
+    let r := importKids (m.push { Node.fresh with kind := .tag, data := some name, attrs := attrs }) m.heap.length ks none
+    (r.1.setChildren m.heap.length r.2, m.heap.length)
+  | .text d ks =>
+    let r := importKids (m.push { Node.fresh with kind := .text, data := some d }) m.heap.length ks none
+    (r.1.setChildren m.heap.length r.2, m.heap.length)
+  | .unknown ks =>
+    let r := importKids (m.push Node.fresh) m.heap.length ks none
+    (r.1.setChildren m.heap.length r.2, m.heap.length)
 /-- children of `p`, linked after `prev`; returns the first one -/
 def importKids (m : Mem) (p : Nat) : List Tree → Option Nat → Mem × Option Nat
   | [], _ => (m, none)
   | k :: ks, prev =>
-    let (m, c) := importTree m k
-    let m := m.put c { m.get c with parent := some p, prev := prev }
-    let m := match prev with
-      | some q => m.put q { m.get q with next := some c }
-      | none => m
-    let (m, _) := importKids m p ks (some c)
-    (m, some c)
+    let r := importTree m k
+    let m1 := r.1.put r.2 { r.1.get r.2 with parent := some p, prev := prev }
+    let m2 := match prev with
+      | some q => m1.put q { m1.get q with next := some r.2 }
+      | none => m1
+    ((importKids m2 p ks (some r.2)).1, some r.2)
 end
 
 /-- `xmpp_stanza_copy` (`none` = NULL) -/
 def copy (m : Mem) (s : Nat) : R (Mem × Option Nat) := do
-  let t ← export m.fuel m s
+  let t ← exportTree m.fuel m s
   match Stanza.copy t with
   | none => pure (m, none)
   | some t' =>
@@ -458,7 +460,7 @@ def renderCtx (m : Mem) (n : Node) : R (Option (Option HashTab)) :=
 /-- `xmpp_stanza_to_text` -/
 def toText (m : Mem) (s : Nat) : R (Except Stanza.Err (Bytes × Nat)) := do
   let n ← m.deref s
-  let t ← export m.fuel m s
+  let t ← exportTree m.fuel m s
   let par ← renderCtx m n
   pure (Stanza.toText par t)
 
@@ -707,7 +709,7 @@ def step (st : St) : Op → R (St × Out)
     match ← resolve st t with
     | .refused why => pure (st, .refused why)
     | .ok s =>
-      let tr ← export st.mem.fuel st.mem s
+      let tr ← exportTree st.mem.fuel st.mem s
       pure (st, .looked tr)
   | .endAll => do
     let m ← releaseAll st.slots st.mem
